@@ -1,0 +1,12 @@
+//go:build verif
+
+package token
+
+// VerifKeywords returns a copy of the keyword table (used by /verif).
+func VerifKeywords() map[string]string {
+	out := make(map[string]string)
+	for k, v := range keywords {
+		out[k] = string(v)
+	}
+	return out
+}
